@@ -66,8 +66,11 @@ def txids(rng, k):
         m = rng.random()
         if m < 0.3:                                   # same 31-byte prefix, last byte differs
             t = out[0][:31] + bytes([rng.choice([0x00, 0x09, 0x0a, 0x10, 0x9f, 0xa0, 0xff])])
-        elif m < 0.5:                                 # differs in the low nibble of the first byte
+        elif m < 0.45:                                # differs in the low nibble of the first byte
             t = bytes([(out[0][0] & 0xf0) | rng.randrange(16)]) + out[0][1:]
+        elif m < 0.6:                                 # same head and tail, another middle (ids that print alike when abbreviated)
+            t = out[0][:rng.choice([4, 8, 9])] + bytes(rng.getrandbits(8) for _ in range(32))
+            t = t[:32 - 5] + out[0][-5:]
         else:
             t = bytes([rng.choice(FIRST)]) + bytes(rng.getrandbits(8) for _ in range(31))
         if t not in out:
